@@ -264,18 +264,16 @@ def shards(tier, seed):
         out.append(("table", dict(lo=lo, hi=min(0x110000, lo + step))))
     if tier == "quick":
         cps = codepoints_quick(seed)
-        k = (len(cps) + 31) // 32
-        for i in range(0, len(cps), k):
-            out.append(("positioned", dict(cps=cps[i:i + k])))
+        for i in range(48):              # round-robin: the low code points are costly
+            out.append(("positioned", dict(cps=cps[i::48])))
     else:
         step = 0x110000 // 512
         for lo in range(0, 0x110000, step):
             out.append(("positioned", dict(lo=lo, hi=min(0x110000, lo + step),
                                            all_gaps=False)))
         cps = codepoints_quick(seed)
-        k = (len(cps) + 31) // 32
-        for i in range(0, len(cps), k):
-            out.append(("positioned", dict(cps=cps[i:i + k])))
+        for i in range(48):
+            out.append(("positioned", dict(cps=cps[i::48])))
     return out
 
 
